@@ -173,6 +173,24 @@ FULL = ("const", "len", "neg", "not", "selectmany", "dict", "ifexp", "anyattr", 
 OPS = ("const", "moreops")
 
 
+# (operator, body, renamings, type the annotations imply)   "__refuse__": the call must raise ValueError
+WRITTEN = [
+    ("Select", "(e.a() > 1) + (e.n() > 2)", (), "int"), ("Select", "e.flag() * e.flag()", (), "int"), ("Select", "e.flag() - e.flag()", (), "int"),
+    ("Select", "e.flag() // e.flag()", (), "int"), ("Select", "e.flag() % e.flag()", (), "int"), ("Select", "e.flag() / e.flag()", (), "float"),
+    ("Select", "e.flag() + e.n()", (), "int"), ("Select", "e.flag() + e.a()", (), "float"), ("Select", "e.jets().Select(lambda j: j.good() + j.good())", (), ("It", "int")),
+    ("Where", "e.flag() + e.flag()", (), "int"), ("Where", "(e.a() > 1) * (e.n() > 2)", (), "int"),
+    ("Select", "e.n() and e.n()", (), "bool"), ("Select", "e.a() or 0.5", (), "bool"), ("Select", "e.name() or 'x'", (), "bool"),
+    ("Select", "not (e.n() and e.n())", (), "bool"), ("Where", "e.n() and e.n()", (), "bool"), ("Where", "e.a() or e.a()", (), "bool"),
+    ("Select", "e.jets().Where(lambda j: j.ntrk() and j.ntrk()).Count()", (), "int"),
+    ("Select", "(e.n() and e.n()) if e.flag() else (e.flag() and e.flag())", (), "bool"),
+    ("Select", "e.jets().Where(lambda j: j.pt())", (), "__refuse__"), ("Select", "e.jets().Where(lambda j: j.ntrk()).Count()", (), "__refuse__"),
+    ("Select", "e.jets().Select(lambda j: j.trks().Where(lambda t: t.q()))", (), "__refuse__"),
+    ("Select", "e.jets().Where(lambda j: j.trks()).Count()", (), "__refuse__"), ("Where", "e.jets().Where(lambda j: j.pt()).Count() > 1", (), "__refuse__"),
+    ("SelectMany", "e.jets().Where(lambda j: j.pt() + 1)", (), "__refuse__"),
+    ("Select", "e.jets().Where(lambda j: j.good()).Select(lambda j: j.trks().Where(lambda t: t.q() + 1).Count())", (), "__refuse__"),
+]
+
+
 class C08(Check):
     pid = "C08"
     title = "Type following yields the declared types"
@@ -222,6 +240,10 @@ class C08(Check):
                                   "every stage", "stages": "1..2", "body_size": 3},
                                  (lambda mname=mname: [(m_, st, "md") for m_, st in self._chains(mname, 3, 2)] +
                                   [(m_, st, "md") for m_, st in self._single(mname, 3)]), runner="run_chain"))
+            if mname == "plain":
+                out.append(Space("plain: written-out cases", {"cases": "arithmetic on truth values (int, / gives float), and / or of numbers and "
+                                                                        "strings (bool), not, nested Where with a non-boolean filter at depth 1..2 (ValueError)"},
+                                 (lambda: [("plain", (c,)) for c in WRITTEN]), runner="run_chain"))
             k = 3 if Q else 4
             out.append(Space(f"{mname}: chains K<=3 bodies<={k}", {"model": mname, "body_size": k, "stages": "2..3"},
                              (lambda mname=mname, k=k: self._chains(mname, k, 3 if not Q else 2)), runner="run_chain"))
@@ -370,7 +392,7 @@ class C08(Check):
                     def fn(x: float) -> float: ...
 
                     func_adl_callable()(fn)
-            want_err = op == "Where" and t not in ("bool", "Any")
+            want_err = (op == "Where" and t not in ("bool", "Any")) or t == "__refuse__"
             real = "Info(" in repr(stages)
             try:
                 s2 = self._apply_real(g, s, op, lam) if real else getattr(s, op)(lam)
